@@ -1172,13 +1172,21 @@ def gen_c09(T, tier, seed, budget, out: Outcome):
     rnd = random.Random(seed)
     t0 = time.time()
     out.rule = ("graphs with index widths 1..63 digits, coordinates up to 1e22, charges/radicals/masses in range, bond types up to 71 digits (lines wrap 0-3 "
-                "times); plus one-atom graphs whose logical atom line has every length 60..300; plus string->graph->molfile->graph->string on TUCAN sentences. "
+                "times); plus one-atom graphs whose logical atom line has every length 60..300; plus one-atom graphs with negative coordinates and charge behind indices of 50..75 digits (a minus sign at every position around the cut); plus string->graph->molfile->graph->string on TUCAN sentences. "
                 "Non-trivial = distinct graphs whose molfile contains at least one wrapped line.")
     for total in range(60, 301 if tier != "quick" else 160):
         spec = length_targeted_spec(total)
         if spec is None:
             continue
         out.run(T, "c09", {"graph": spec}, ("len", total) if total > 72 else None)
+        if time.time() - t0 > budget or len(out.violations) >= 3:
+            return
+    # minus signs at every position around the cut: negative coordinates and a negative charge behind indices of 50..75 digits
+    for w in range(50, 76):
+        label = int("1" + "0" * (w - 1)) - 1
+        for xs in ((-0.5, -2.25, -1.0), (1.5, -0.125, -7.0)):
+            spec = {"nodes": [[label, {"element_symbol": "C", "atomic_number": 6, "partition": 0, "x_coord": xs[0], "y_coord": xs[1], "z_coord": xs[2], "chg": -1}]], "edges": []}
+            out.run(T, "c09", {"graph": spec}, ("minus", w, xs[0]))
         if time.time() - t0 > budget or len(out.violations) >= 3:
             return
     for k in range(150 if tier == "quick" else 5000):
